@@ -1,7 +1,7 @@
 (* C13 correspondence: observations of the real code (harness/db/verif_c13_test.go) re-evaluated on the model
    with vm_compute.  Go iterates maps in random order, so sets / association lists are compared as sets and
    period lists as sorted lists; the rows of a request are compared exactly, in order. *)
-From SG Require Export Base.Prelude C20.SeqIdGen C20.SeqId C13.Revocation C13.Feed C13.Client C13.DocHist C13.GrantSys C13.Sys.
+From SG Require Export Base.Prelude C20.SeqIdGen C20.SeqId C13.Revocation C13.Feed C13.Client C13.DocHist C13.GrantSys C13.Sys C13.FeedProofs C13.FeedComplete.
 Open Scope N_scope.
 
 Inductive case :=
@@ -85,7 +85,9 @@ Definition check (c : case) : bool :=
   | CDocHist active new_ seq cs h cs' h' =>
       let '(mcs, mh) := update_channels active new_ seq (cs, h) in
       list_eqb docent_eqb (dsort mcs) (dsort cs') && list_eqb docent_eqb (dsort mh) (dsort h')
-  | CPull snap trig seq limit rows => list_eqb row_eqb (pull snap (mk trig 0 seq) limit) rows
+  (* the rows, and the hypothesis of the delivery theorems: rows with the same token describe the same revision *)
+  | CPull snap trig seq limit rows =>
+      list_eqb row_eqb (pull snap (mk trig 0 seq) limit) rows && feeds_consistent_b (feeds snap (mk trig 0 seq))
   | CClient c0 rows c1 => list_eqb pair_eqb (apply_rows c0 rows) c1
   (* a write at sequence s either leaves the principal alone or invalidates it; the first invalidation sticks *)
   | CSys ops obs =>
